@@ -523,12 +523,13 @@ func genCompletion(r *vlib.Rng, shape int, big int) completion {
 }
 
 type renderOpts struct {
-	usageMode   int  // 0 on the finish chunk, 1 separate chunk with "choices":[], 2 separate chunk with an empty delta, 3 every chunk (continuous), then final
-	groupFrags  bool // several fragments of one call / several opening fragments in one tool_calls array
-	mixed       bool // put a text piece and the following call's opening fragment into ONE delta
-	emptyTools  bool // content chunks also carry "tool_calls":[]
-	roleFirst   bool // leading role-only chunk
-	contentNull bool
+	usageMode    int  // 0 on the finish chunk, 1 separate chunk with "choices":[], 2 separate chunk with an empty delta, 3 every chunk (continuous), then final
+	groupFrags   bool // several fragments of one call / several opening fragments in one tool_calls array
+	mixed        bool // put a text piece and the following call's opening fragment into ONE delta
+	emptyTools   bool // content chunks also carry "tool_calls":[]
+	roleFirst    bool // leading role-only chunk
+	contentNull  bool
+	finishOnLast bool // finish_reason (and usage) ride on the last content / tool chunk instead of a chunk of their own
 }
 
 // toLines renders the completion as logical chunk lines.
@@ -607,7 +608,10 @@ func toLines(r *vlib.Rng, c completion, o renderOpts) []Line {
 	if c.usage != nil && (o.usageMode == 0 || o.usageMode == 3) {
 		fin.Usage = c.usage
 	}
-	if c.finish != nil || fin.Usage != nil || r.Bool() {
+	if o.finishOnLast && len(out) > 0 && out[len(out)-1].Choice && (c.finish != nil || fin.Usage != nil) {
+		out[len(out)-1].Finish = fin.Finish
+		out[len(out)-1].Usage = fin.Usage
+	} else if c.finish != nil || fin.Usage != nil || r.Bool() {
 		out = append(out, fin)
 	}
 	if c.usage != nil {
@@ -1211,7 +1215,7 @@ func lineFromJSON(m map[string]any) Line {
 
 func main() {
 	tier := vlib.Tier()
-	e := &env{c: vlib.OpenCases("cases.jsonl"), r: vlib.NewRng(vlib.Seed()), thorough: tier == "thorough",
+	e := &env{c: vlib.OpenCases("cases.jsonl"), r: vlib.NewRng(vlib.Seed()).Fork(), thorough: tier == "thorough",
 		tr: anthropic.NewTranslator(vlib.QuietLogger(), config.AnthropicTranslatorConfig{Enabled: true, MaxMessageSize: 10 << 20})}
 	r := e.r
 
@@ -1282,7 +1286,7 @@ func main() {
 		}
 		comp := genCompletion(r, shape, big)
 		o := renderOpts{usageMode: vlib.Pick(r, []int{0, 0, 0, 1, 1, 2, 3}), groupFrags: r.Chance(1, 4), mixed: r.Chance(1, 25),
-			emptyTools: r.Chance(1, 10), roleFirst: r.Chance(2, 3), contentNull: r.Chance(1, 3)}
+			emptyTools: r.Chance(1, 10), roleFirst: r.Chance(2, 3), contentNull: r.Chance(1, 3), finishOnLast: r.Chance(1, 5)}
 		lines := toLines(r, comp, o)
 		noise := vlib.Pick(r, []int{0, 0, 1, 2})
 		lines = e.withNoise(lines, noise)
@@ -1373,5 +1377,5 @@ func main() {
 
 	e.c.Close(map[string]any{"exhaustive": false,
 		"exhaustive_note": "the input space is infinite; every hand-written odd JSON shape and every ignorable line kind is run once on its own (exhaustive over those two finite lists), everything else is sampled",
-		"chunkings": "0 whole, 1 one byte per Read, 2 one rune per Read, 3 random 1..23 byte reads, 4 reads split inside every id/name/arguments/content value and after every newline, 5 data+EOF in one Read; each stream is run under 3 of them (all 6 when small or in the thorough tier) and the outputs must be identical"})
+		"chunkings":       "0 whole, 1 one byte per Read, 2 one rune per Read, 3 random 1..23 byte reads, 4 reads split inside every id/name/arguments/content value and after every newline, 5 data+EOF in one Read; each stream is run under 3 of them (all 6 when small or in the thorough tier) and the outputs must be identical"})
 }
